@@ -12,6 +12,7 @@ mod guard;
 mod minimize;
 mod mon_term;
 mod monitors;
+mod pal;
 mod rng;
 mod scenario;
 mod supervisor;
